@@ -659,3 +659,47 @@ Example schemeless_host_port_is_opaque :
   build_auth_url_redirect ex_sign ex_cfg_unsigned (url_parse_split "idp.example.com:8443/sso") "" "D"
   = Ok ("idp.example.com:8443/sso?SAMLRequest=RA%3D%3D", None).
 Proof. vm_compute. repeat split. Qed.
+
+(* ================================================================ (a) for the translated source run on the modelled parser *)
+Section KeptSource.
+  Variable write_doc : node -> res string.
+  Variable fl_write : list string -> string -> string.
+  Variable fl_close : list string -> string.
+  Variable sign : hash_alg -> string -> option string.
+
+  Lemma url_of_common endpoint written (build : option parsed_url -> string -> res redirect_result) f cfg relay binding url :
+    (forall parsed deflated, build parsed deflated = build_url sign f cfg parsed relay binding deflated) ->
+    common_endpoint endpoint = true ->
+    url_of fl_write fl_close (url_parse_gurl endpoint) written build = Ok url ->
+    exists q, nonempty q = true /\ url = endpoint_base endpoint ++ "?" ++ q.
+  Proof.
+    intros HB C H. destruct (common_endpoint_round_trip endpoint C) as (U & HP & _ & _).
+    unfold url_of, url_parse_gurl in H. rewrite HP in H. destruct written as [s|e]; [|discriminate].
+    cbn [bind url_gurl gu_split] in H. rewrite HB in H.
+    destruct (build_url sign f cfg (Some (url_split U)) relay binding (deflate fl_write fl_close s)) as [[u sg]|e] eqn:EB; [|discriminate].
+    cbn [bind fst] in H. injection H as <-.
+    rewrite <- (url_parse_split_ok _ _ HP) in EB.
+    destruct (endpoint_kept sign _ _ _ _ _ _ _ _ _ HP EB) as (qs & M & _ & K).
+    destruct (K C) as [_ ->]. exists (values_encode qs). split; [|reflexivity].
+    apply (merged_query_nonempty _ _ _ _ (parse_query_wf _) M).
+  Qed.
+
+  Lemma endpoint_kept_source sp relay doc url :
+    (common_endpoint (rsp_sso_url sp) = true ->
+     (G_BuildAuthURLRedirect url_parse_gurl write_doc fl_write fl_close sign sp relay doc = PVal (Ok url) \/
+      G_BuildAuthURLFromDocument url_parse_gurl write_doc fl_write fl_close sign sp relay doc = PVal (Ok url)) ->
+     exists q, nonempty q = true /\ url = endpoint_base (rsp_sso_url sp) ++ "?" ++ q) /\
+    (common_endpoint (rsp_slo_url sp) = true ->
+     G_BuildLogoutURLRedirect url_parse_gurl write_doc fl_write fl_close sign sp relay doc = PVal (Ok url) ->
+     exists q, nonempty q = true /\ url = endpoint_base (rsp_slo_url sp) ++ "?" ++ q).
+  Proof.
+    split.
+    - intros C [H|H].
+      + rewrite G_BuildAuthURLRedirect_is_model in H. injection H as H.
+        apply (url_of_common _ _ _ FAuthn (rsp_cfg sp) relay c_BindingHttpRedirect url) in H; [exact H| |exact C]. reflexivity.
+      + rewrite G_BuildAuthURLFromDocument_is_model in H. injection H as H.
+        apply (url_of_common _ _ _ FAuthn (rsp_cfg sp) relay c_BindingHttpPost url) in H; [exact H| |exact C]. reflexivity.
+    - intros C H. rewrite G_BuildLogoutURLRedirect_is_model in H. injection H as H.
+      apply (url_of_common _ _ _ FLogout (rsp_cfg sp) relay c_BindingHttpRedirect url) in H; [exact H| |exact C]. reflexivity.
+  Qed.
+End KeptSource.
